@@ -9,6 +9,7 @@ import (
 	"strconv"
 	"strings"
 	"sync"
+	"sync/atomic"
 	"syscall"
 	"time"
 
@@ -69,12 +70,12 @@ func init() {
 		if err != nil {
 			return "initerr"
 		}
-		rotated := make(chan struct{}, 64)
+		var rotatedN int64 // number of rotations the transport has completed
 		parked := make(chan chan struct{}, 4)
 		var parkOnce sync.Once
 		filetransport.VerifEvent = func(ev string) {
 			if ev == "file.rotated" {
-				rotated <- struct{}{}
+				atomic.AddInt64(&rotatedN, 1)
 			}
 		}
 		forced := mode == "forced"
@@ -122,9 +123,10 @@ func init() {
 			os.Rename(path, fmt.Sprintf("%s.%d", path, rotations))
 			syscall.Kill(os.Getpid(), syscall.SIGHUP)
 			if wait {
-				select {
-				case <-rotated:
-				case <-time.After(300 * time.Millisecond):
+				// until the transport has completed THIS rotation (at most 300 ms: in the forced
+				// schedule it cannot complete before the parked sender is released)
+				for w := 0; w < 60 && atomic.LoadInt64(&rotatedN) < int64(rotations); w++ {
+					time.Sleep(5 * time.Millisecond)
 				}
 			}
 		}
@@ -137,7 +139,7 @@ func init() {
 			var rel chan struct{}
 			select {
 			case rel = <-parked:
-			case <-time.After(2 * time.Second):
+			case <-time.After(wd(2 * time.Second)):
 				return "nopark"
 			}
 			rotate(true)
@@ -174,6 +176,12 @@ func init() {
 			rotate(true)
 		}
 		wg.Wait()
+		// every SIGHUP sent has been consumed by the transport before Close: Close calls
+		// signal.Ignore, and the Go runtime kills the process when a signal that is still being
+		// delivered meets signal.Ignore (observed: "Hangup", exit by signal 1)
+		for w := 0; w < int(1000*tscale) && atomic.LoadInt64(&rotatedN) < int64(rotations); w++ {
+			time.Sleep(5 * time.Millisecond)
+		}
 		tr.Close()
 		// collect
 		var all string
